@@ -90,6 +90,11 @@ CHECKS = {
          "(a) for 3e3 (quick) chain pairs up to 2e5 blocks, below and above every fork-id checkpoint, the estimate computed from the peer's fork id must not exceed the true fork height; (b) for every (prefix, own suffix, peer suffix) up to 4/4/5 (quick) and generated ones up to 12/6/14 under generated schedules with up to four pending fetches completed in any order, the syncing node must end on the peer's tip, the peer must stay put, and every lacking block must have been requested.",
          "Per-direction message order on a connection is preserved (as a websocket does); the by-design 2^-16 checkpoint fingerprint collision is excluded from (a) by construction of the synthetic hashes. Out-of-order fetch completion with initial_loading_completed=false is known finding F10c (root cause F10).",
          "DESIGN.md §3 C15"),
+ "C11": ("exploration",
+         "property-based robustness testing of a whole node (real routing, verification, consensus, mining threads) under generated sequences of hostile and honest events, with a panic/step-bound oracle per handler invocation and a differential oracle against a twin node that only sees the honest sub-sequence",
+         "Sequences of 3..40 events mix decodable messages of every tag from an authenticated and an unauthenticated hostile peer (generated by the C09 value generators), key-list floods, bogus block announcements answered with garbage/truncated/empty/mismatching/edited blocks, catalogue transactions, raw garbage and connection events with honest transactions and blocks, timer ticks and channel pumping. Every handler invocation must return; block processing must stay under the step bound; after every event the tip, and at the end utxoset, honest pool content and honest peer status, must equal those of the honest-only twin.",
+         "A handler that never returns outside the wind/unwind loop can only be caught by the harness watchdog (reported as inconclusive, exit 2); the per-event tip comparison catches the known way into such a loop (corrupted chain index) before it is entered. Rate limiters other than the key-list one are not exhausted by these sequence lengths.",
+         "DESIGN.md §3 C11"),
 }
 NOT_YET = {}
 
